@@ -12,6 +12,7 @@ import cmdline
 import gen_rules
 import confshape
 import conffam
+import confbytes
 
 R = '@R@'
 
@@ -314,6 +315,44 @@ def conf_requests(rng, tier, texts):
         reqs.append(('conf', bytes(t), HOME))
     return reqs
 # --------------------------------------------------------------------------
+# one defect at every rule position of a valid configuration (C14_error_anywhere_rejects_file)
+# --------------------------------------------------------------------------
+
+# (class, a rule holding the defect): the classes of the theorem, in an action, in a condition behind `!`, `attachment`, `(`, `and` / `or`
+ANYWHERE = [
+    ('unknown-macro', 'match all move "${nosuch}"'),
+    ('unknown-macro-in-action-list', 'match new label "l" exec stdin { "c" "${nosuch}" "d" } pass'),
+    ('unknown-macro-in-condition', 'match ! ( new and header { "To" "${nosuch}" } /x/ ) break'),
+    ('path-macro-outside-action', 'match attachment isdirectory "${path}" break'),
+    ('unknown-unit', 'match date > 3 foo break'),
+    ('ambiguous-unit', 'match old or attachment ( date modified < 2 m ) break'),
+    ('keyword-as-unit', 'match date created > 1 match break'),
+    ('exec-option-repeated', 'match all label "l" exec stdin body stdin "c"'),
+]
+STDIN_BLOCK = 'stdin {\n\tmatch all discard\n}\n'
+STDIN_PATH_BLOCK = 'maildir { "/r/other" "/dev/stdin" } {\n\tmatch all break\n}\n'
+
+
+def anywhere_cases(conf):
+    """conf: a valid configuration in the layout of gen_rules (one rule per line, `}` of a block on a line of its own).
+    -> [(class, text, line of the first diagnostic)]: each defective rule on a line of its own in front of every rule and in front of the
+    closing brace of every block - every rule position of every block, nested ones included -, and a block written `stdin` behind a
+    block that reads from stdin, at every pair of block positions."""
+    lines = conf.split('\n')
+    out = []
+    for i, ln in enumerate(lines):
+        if ln.strip().startswith('match ') or ln.strip() == '}':
+            for name, rule in ANYWHERE:
+                out.append((name, '\n'.join(lines[:i] + ['\t' + rule] + lines[i:]), i + 1))
+    nl = lambda t: t.count('\n')
+    for first in (STDIN_BLOCK, STDIN_PATH_BLOCK):
+        out.append(('second-stdin-block', conf + first + STDIN_BLOCK, nl(conf + first) + 1))
+        out.append(('second-stdin-block', first + conf + STDIN_BLOCK, nl(first + conf) + 1))
+        out.append(('second-stdin-block', first + STDIN_BLOCK + conf, nl(first) + 1))
+    return out
+
+
+# --------------------------------------------------------------------------
 # configuration families (tools/conffam.py): macro-name relations, integer literals, path-list shapes of maildir blocks
 # --------------------------------------------------------------------------
 
@@ -376,6 +415,38 @@ def family_unit_stage(rep, h, henv, dconf, tier, rng):
         'deviations': {k: len(v) for k, v in bad.items()},
     })
     return stat
+
+
+def bytes_unit_stage(rep, h, henv, dconf, tier):
+    """tools/confbytes.py through the real parser (`conf` of h_parse): every byte value 0x01..0xff at every kind of position; the verdict
+    (accepted / rejected) against the documented one - a deviation is a failing input - and the whole answer against `M conf`."""
+    line = vlib.Differential.line
+    cs = confbytes.cases(tier, 'unit')
+    reqs = [('conf', c[2].replace(b'@R@', b'/r'), HOME) for c in cs]
+    lines = [line(r) for r in reqs]
+    impl = vlib.run_batch([h], lines, henv)
+    model = vlib.run_batch([vlib.driver_path()], ['M ' + l for l in lines])
+    dconf.evals += len(reqs)
+    bad = []
+    for c, r, im, mo in zip(cs, reqs, impl, model):
+        if im.startswith('FAULT'):
+            rep.finding('sanitizer-fault', {'family': 'configuration-bytes', 'position': c[0], 'byte': '0x%02x' % c[1], 'config': r[1].decode('latin-1'), 'implementation': im})
+            continue
+        if im.startswith('OK') != c[3]:
+            bad.append({'family': 'configuration-bytes', 'position': c[0], 'byte': '0x%02x' % c[1], 'config': r[1].decode('latin-1'),
+                        'config_bytes': repr(r[1]), 'expected': 'accepted' if c[3] else 'rejected (a diagnostic)',
+                        'what': ['byte 0x%02x %s: the real parser %s the file, the documented verdict is %s' %
+                                 (c[1], c[0], 'accepts' if im.startswith('OK') else 'rejects', 'accepted' if c[3] else 'rejected')],
+                        'implementation': im[:300], 'model': mo[:300], 'level': 'real parser (harness h_parse, op conf)'})
+        elif im != mo:
+            dconf.corr_mismatch.append((r, im, mo, None))
+    for it in conffam.pick(bad, key=lambda it: it['position']):
+        rep.finding('unlisted', dict(it, deviations_in_this_family=len(bad)))
+    nul = confbytes.observe_nul()
+    nimpl = vlib.run_batch([h], [line(('conf', t.replace(b'@R@', b'/r'), HOME)) for _, t in nul], henv)
+    return {'unit_cases': len(cs), 'positions': sorted(set(c[0] for c in cs)), 'unit_expected_accepted': sum(1 for c in cs if c[3]),
+            'unit_deviations': len(bad), 'unit_model_disagreements': sum(1 for c, im, mo in zip(cs, impl, model) if im != mo and im.startswith('OK') == c[3]),
+            'nul_byte_recorded_not_judged': {name: im.split(' ')[0] + (' ' + im.split(' ')[1] if im.startswith('ERR') else '') for (name, _), im in zip(nul, nimpl)}}
 
 
 def family_process_cases(tier):
@@ -466,20 +537,71 @@ def population():
     return t
 
 
-def run_conf(tools, conf, args=(), stdin=None, timeout=10):
-    """Run the real binary on a populated tree; returns (status, stderr, tree unchanged?, helper ran?)."""
-    spec = ws.Spec('c14', conf, tree=population(), stdin=stdin, args=list(args))
-    scen = spec.build(tools)
+def run_conf(tools, conf, args=(), stdin=None, timeout=10, scen=None):
+    """Run the real binary on a populated tree; returns (status, stderr, tree unchanged?, helper ran?).
+    scen: a sandbox of `population()` to run in (long families keep one per worker: it is restored only after a run that changed it)."""
+    own = scen is None
+    if own:
+        scen = ws.Spec('c14', conf, tree=population(), stdin=stdin, args=list(args)).build(tools)
+    else:
+        if getattr(scen, 'dirty', False):
+            scen.reset()
+        scen.config = conf.replace(R, scen.root)
+        with open(os.path.join(scen.root, 'conf'), 'w', encoding='latin-1') as fh:
+            fh.write(scen.config)
+        scen.args, scen.stdin = list(args), stdin
     try:
         r = scen.run(trace=True, timeout=timeout)
         changed = []
         if r.status != 'timeout':
             a, b = ws.maildir_files(scen.initial), ws.maildir_files(r.final)
             changed = sorted(set(a.items()) ^ set(b.items()))
+        scen.dirty = r.status == 'timeout' or {k: v for k, v in r.final.items() if k != 'conf'} != {k: v for k, v in scen.initial.items() if k != 'conf'}
         opened = [c['raw'] for c in r.calls() if c['name'] in ('opendir', 'openat', 'fork', 'mkdtemp')]
         return r.status, r.err.decode('latin-1').replace(scen.root, R), changed, [h.replace(scen.root, R) for h in r.helper], opened
     finally:
-        scen.cleanup()
+        if own:
+            scen.cleanup()
+
+
+def nul_witness(rep, tools):
+    """Known finding F33 (class `nul-ends-config`): a NUL byte at a token position is token 0 = end of input for the generated
+    parser, so everything after it - valid or not - is never read: a file with an error AFTER the NUL passes -n and its first
+    part is carried out.  Exactly that outcome (exit 0, no diagnostic, the rule before the NUL applied) is the listed finding; a
+    diagnostic and a non-zero status is the repaired behaviour; anything else is a violation."""
+    head = 'maildir "%s/src" {\n\tmatch all move "%s/dst"\n}\n' % (R, R)
+    cases = [('error-after-nul', head + '\0\nmaildir "%s/src" {\n\tmatch all\n}\ngarbage\n' % R),
+             ('nul-between-blocks', head + '\0' + 'maildir "%s/src2" {\n\tmatch all move "%s/dst"\n}\n' % (R, R))]
+    stat = {'runs': 0, 'silently_accepted': 0, 'rejected': 0}
+    for name, conf in cases:
+        st, err, changed, helper, opened = run_conf(tools, conf, args=['-n'])
+        stat['runs'] += 1
+        payload = {'stage': 'nul-witness', 'scenario': name, 'config': conf.replace('\0', '<NUL>'), 'exit_status': st, 'stderr': err[-300:],
+                   'what': 'a NUL byte at a token position: -n gives exit status %r, stderr %r' % (st, err[-120:])}
+        if st == 0 and not err.strip():
+            stat['silently_accepted'] += 1
+            if name == 'error-after-nul':
+                rep.finding('nul-ends-config', payload)
+        elif st != 0 and re.search(r'conf:\d+:', err):
+            stat['rejected'] += 1
+        else:
+            rep.finding('unlisted', payload)
+    return stat
+
+
+def pooled(tools, items, fn):
+    """fn(item, scen) for every item, each worker thread with ONE sandbox of its own (see run_conf)."""
+    nw = max(1, min(vlib.NCPU, len(items)))
+    size = (len(items) + nw - 1) // nw
+
+    def work(chunk):
+        scen = ws.Spec('c14', '', tree=population()).build(tools)
+        try:
+            return [fn(it, scen) for it in chunk]
+        finally:
+            scen.cleanup()
+    with cf.ThreadPoolExecutor(nw) as ex:
+        return [r for part in ex.map(work, [items[i:i + size] for i in range(0, len(items), size)]) for r in part]
 
 
 def grammar_configs(rng, n):
@@ -631,7 +753,7 @@ def run(rep):
     texts += [c[4] for c in ilit[::max(1, len(ilit) // (400 if rep.tier == 'quick' else 20000))]]
     recs = lex_records(h, henv, texts)
     dreq, idx = [], []
-    nfault = 0
+    nfault = nolex = 0
     for t, r in zip(texts, recs):
         if r.startswith('FAULT'):
             nfault += 1
@@ -647,6 +769,11 @@ def run(rep):
             ins.append(a.strip())
             outs.append(b.strip())
         if not ins:
+            continue
+        if ins[0].startswith('-1 '):
+            # the harness was built without the lexer's own variables (vlib.DEGRADED): no offsets and modes to start the Lean lexer from;
+            # the token sequence still counts the yylex calls, the parser correspondence below (op conf) is unaffected
+            nolex += 1
             continue
         dreq.append('M lex %s %s' % (vlib.hexs(t.encode('latin-1')), vlib.hexs('\n'.join(ins).encode())))
         idx.append((t, outs, int(m.group(2))))
@@ -673,6 +800,8 @@ def run(rep):
     conf_nodes = sum(len(re.findall(r' (?:block|and|or|neg|match|attachment|attblock) ', x)) for x in cimpl if x.startswith('OK'))
     # 1b'. configuration families at the level of the real parser: macro-name relations, integer literals, path-list shapes
     fam_stat = family_unit_stage(rep, h, henv, dconf, rep.tier, rng)
+    # 1b''. every byte value at every kind of position of the file (tools/confbytes.py), real parser
+    byte_stat = bytes_unit_stage(rep, h, henv, dconf, rep.tier)
     # 1c. the written form (Spec.printBlocks) of every accepted configuration that is in Spec.ConfOK goes through both parsers
     # again: the real parser must accept it and build the same trees (all nodes on line 1: C14_accepts_grammar_partial)
     okreqs = [r_ for r_, im_ in zip(creqs, cimpl) if im_.startswith('OK')]
@@ -682,6 +811,16 @@ def run(rep):
     printed_bad = [(r_, im_) for r_, im_ in zip(preqs, pimpl) if not im_.startswith('OK') or re.search(r' (?:block|and|or|neg|match|attachment|attblock|all|new|old|body|header|date|stat|command|move|flag|flags|discard|break|label|pass|reject|exec|addheader) (?!1 )\d+', im_)]
     for r_, im_ in printed_bad[:5]:
         rep.finding('unlisted', {'kind': 'written form not read back on line 1', 'config': r_[1][:1500].decode('latin-1'), 'implementation': im_[:600]})
+    # 1c'. one defect at every rule position (C14_error_anywhere_rejects_file): valid generated configurations, each defect of the three
+    # classes written at every rule position of every block: both parsers must report the first diagnostic on the line of the defect
+    aw_confs = [c.replace(R, '/r') for c in grammar_configs(rng, 25 if rep.tier == 'quick' else 1500)]
+    aw_ok = [c for c, im_ in zip(aw_confs, dconf.run([('conf', c.encode('latin-1'), HOME) for c in aw_confs], shrink=False)[0]) if im_.startswith('OK')]
+    aw_cases = [(c, k) for c in aw_ok for k in anywhere_cases(c)]
+    aw_impl, aw_model, _ = dconf.run([('conf', k[1].encode('latin-1'), HOME) for _, k in aw_cases], shrink=False)
+    aw_bad = [(c, k, im_) for (c, k), im_ in zip(aw_cases, aw_impl) if im_ != 'ERR %d' % k[2]]
+    for c, k, im_ in aw_bad[:5]:
+        rep.finding('unlisted', {'kind': 'defect at a rule position: ' + k[0], 'config': k[1][:1500], 'valid configuration it was written into': c[:1500],
+                                 'expected': 'first diagnostic on line %d' % k[2], 'implementation': im_[:300], 'deviations_in_this_family': len(aw_bad)})
     for r_, im_, mo_ in zip(creqs, cimpl, cmodel):
         if mo_ in ('FUEL', 'BADOP', 'BADHEX') or mo_.startswith('FAULT'):
             dconf.corr_mismatch.append((r_, im_, mo_, None)) if im_ == mo_ else None
@@ -704,12 +843,12 @@ def run(rep):
             probs.append('mdsort -n did not terminate within 10 s')
         return {'kind': 'accept', 'config': conf[:1500], 'status': st, 'problems': probs}
 
-    def reject(item):
+    def reject(item, modes=(([], None), (['-'], ws.msg(5))), scen=None):
         name, conf = item
         conf = conf.replace('@HELPER@', tools.helper)
         probs = []
-        for args, stdin in (([], None), (['-'], ws.msg(5))):
-            st, err, changed, helper, opened = run_conf(tools, conf, args=args, stdin=stdin)
+        for args, stdin in modes:
+            st, err, changed, helper, opened = run_conf(tools, conf, args=args, stdin=stdin, scen=scen)
             if st == 'timeout':
                 probs.append('did not terminate')
                 continue
@@ -766,6 +905,21 @@ def run(rep):
             probs.append('%s: a valid combination of pattern flags is not accepted by -n: exit status %r, stderr %r' % (name, st, err[-200:]))
         return {'kind': 'accept:' + name, 'config': conf[:1500], 'problems': probs}
 
+    def bytecase(c, scen):
+        """One case of the configuration-bytes family on the real binary over a populated maildir."""
+        name = 'byte 0x%02x %s' % (c[1], c[0])
+        conf = c[2].decode('latin-1')
+        if not c[3]:
+            # (the maildir run; every fourth value also as a delivery from standard input)
+            r = reject((name, conf), modes=(([], None), (['-'], ws.msg(5))) if c[1] % 4 == 1 else (([], None),), scen=scen)
+            return dict(r, kind='bytes:' + c[0], byte=c[1], expected='rejected')
+        st, err, changed, helper, opened = run_conf(tools, conf, args=['-n'], scen=scen)
+        probs = []
+        if st != 0 or err.strip():
+            probs.append('%s: the file is valid (the byte is white space, starts a comment or is data of a comment / string / pattern) but -n gives exit '
+                         'status %r, stderr %r' % (name, st, err[-200:]))
+        return {'kind': 'bytes:' + c[0], 'byte': c[1], 'config': conf[:1500], 'problems': probs, 'expected': 'accepted'}
+
     def total(text):
         st, err, changed, helper, opened = run_conf(tools, text, args=['-n'], timeout=10)
         probs = []
@@ -783,6 +937,7 @@ def run(rep):
         matrix = list(ex.map(cell, cells))
         famres = list(ex.map(lambda jc: jc[0](tools, jc[1], rep.tier), fam))
         results = list(ex.map(accept, acc)) + list(ex.map(reject, rej)) + list(ex.map(total, tot)) + matrix
+    bres = pooled(tools, confbytes.cases(rep.tier, 'process'), bytecase)
     nfam = {}
     for r in famres:
         if r['problems']:
@@ -792,6 +947,12 @@ def run(rep):
             rep.finding('unlisted', {'kind': r['kind'], 'config': r['config'], 'arguments': r.get('arguments', []), 'expected': r['expected'],
                                      'what': r['problems'][:4], 'level': 'real binary (mdsort under the shim)', 'deviations_in_this_family': len(items)})
     nfam = {k: len(v) for k, v in nfam.items()}
+    bbad = [r for r in bres if r['problems']]
+    for r in conffam.pick(bbad, key=lambda it: it['kind']):
+        rep.finding('unlisted', {'family': 'configuration-bytes', 'position': r['kind'].split(':', 1)[1], 'byte': '0x%02x' % r['byte'], 'config': r['config'],
+                                 'config_bytes': repr(r['config'].encode('latin-1')), 'expected': r['expected'], 'what': r['problems'][:4],
+                                 'level': 'real binary (mdsort under the shim, populated maildir)', 'deviations_in_this_family': len(bbad)})
+    byte_stat.update({'process_cases': len(bres), 'process_expected_accepted': sum(1 for r in bres if r['expected'] == 'accepted'), 'process_deviations': len(bbad)})
     for r in results:
         if r['problems']:
             rep.finding(r.get('cls', 'unlisted'), {'kind': r['kind'], 'config': r['config'], 'what': r['problems'][:4]})
@@ -827,6 +988,7 @@ def run(rep):
                        'examples': corr_bad[:6]}, False)
     dconf.conclude('config_parse (parse.y, bison) <-> Model/Conf.lean parseConfig: accept/reject, first diagnostic line, trees, yylex calls')
     rep.coverage['command_line'] = cmdline.stage(rep, sc, tools, W)      # argument vectors and environments: refused => exit 1 and no call (tools/cmdline.py)
+    rep.coverage['nul_ends_configuration'] = nul_witness(rep, tools)      # F33
     vlib.lean_conclude(rep)
     rep.coverage.update({
         'evaluations': len(texts) + len(results),
@@ -868,6 +1030,19 @@ def run(rep):
             'process_deviations': nfam,
             'process_path_lists_recorded': _recorded([(r['kind'].split(':', 1)[1], 'accepted' if r.get('accepted') else 'rejected') for r in famres if r['kind'].startswith('either:')]),
         }),
+        'configuration_bytes': dict(byte_stat, rule=confbytes.__doc__.split('\n\n')[1].replace('\n', ' ')),
+        'lexer_records_without_offsets': nolex,
+        'defect_at_every_rule_position': {
+            'rule': 'C14_error_anywhere_rejects_file on the real parser: %d valid grammar-generated configurations (nested blocks, attachment '
+                    'blocks, macro definitions, comments); each of %d defective rules (unknown macro in an action, in a list of an exec action, '
+                    'in a header name inside ! ( and ); ${path} in isdirectory under attachment; unknown unit, ambiguous unit, keyword as unit, '
+                    'also under or / attachment / ( ); a repeated exec option) written at every rule position of every block - in front of every rule and of every '
+                    'closing brace -, and a block written stdin behind a stdin block or a maildir block with the path /dev/stdin at every pair '
+                    'of positions: config_parse and Model.parseConfig must both report the first diagnostic on the line of the defect'
+                    % (len(aw_ok), len(ANYWHERE)),
+            'cases': len(aw_cases), 'classes': {n: sum(1 for _, k in aw_cases if k[0] == n) for n in sorted(set(k[0] for _, k in aw_cases))},
+            'deviations': len(aw_bad), 'model_disagreements': sum(1 for a, b in zip(aw_impl, aw_model) if a != b),
+        },
         'correspondence_mismatches': len(corr_bad),
         'parser_requests': len(creqs), 'parser_accepted': conf_ok, 'parser_rejected': conf_err,
         'parser_distinct_diagnostic_lines': conf_lines, 'parser_inner_nodes_compared': conf_nodes,
